@@ -83,7 +83,7 @@ def ts_jobs(tier):
     tr = translate_server()
     close = "".join(text for _, text in tr["server_close"])
     handle = "".join(text for _, text in tr["process_request"])
-    full = {"name": "all-interleavings", "depth": 16 if not thorough else 20, "preempt": None, "timeout": 200 if not thorough else 1500}
+    full = {"name": "all-interleavings", "depth": 16 if not thorough else 18, "preempt": None, "timeout": 200 if not thorough else 900}
     out = []
     sizes = [(1, 0), (2, 0), (2, 1)] if not thorough else [(1, 0), (2, 0), (2, 1), (3, 0)]
     for mx, mn in sizes:
